@@ -76,7 +76,7 @@ def discharge(axioms, ob: Obligation, tier: str = "quick", budget_ms: int = 1000
         return Verdict(ob.name, "discharged", "z3-5.1", ms, ob.where, ob.kind, f"not refutable ({r}), as required")
     # Stage budgets are z3 resource limits (rlimit, about 2000 units per millisecond on this machine
     # for e-matching queries) capped by a wall-clock timeout (3 x the nominal time for the first stage, whose
-    # failures on the cardinality obligations must be cheap, 8 x for the later ones): the verdict of a
+    # failures on the cardinality obligations must be cheap, 4 x for the later ones): the verdict of a
     # stage does not depend on the load unless the machine is oversubscribed more than that.  Order: z3 e-matching
     # (seed 0); cvc5 on the SMT-LIB dump (the finite-set cardinality obligations are only ever decided
     # by cvc5); z3 e-matching with another seed (instantiation order is seed dependent and the running
@@ -85,7 +85,7 @@ def discharge(axioms, ob: Obligation, tier: str = "quick", budget_ms: int = 1000
     trail = []
     state = {"txt": None, "qhash": ""}
 
-    def z3_stage(mbqi, seed, factor, cap=8):
+    def z3_stage(mbqi, seed, factor, cap=4):
         s = z3.Solver()
         s.set("rlimit", int(budget_ms * 2000 * factor))
         s.set("timeout", int(budget_ms * cap * factor))
